@@ -9,12 +9,12 @@ from .common import floor_at, floors, make_gmm, o_comp, o_stats, sym_stats, tota
 FUNCTIONS = ["gmm.GMMMachine.weights/means/variances/variance_thresholds setters and getters", "gmm.GMMMachine.g_norms", "gmm.GMMMachine.log_weights",
              "gmm.ml_gmm_m_step", "gmm.map_gmm_m_step", "gmm.m_step", "gmm.GMMMachine.save", "gmm.GMMMachine.from_hdf5", "gmm.GMMMachine.load",
              "gmm.GMMMachine.__init__ (plain / with ubm / with weights)", "gmm.log_likelihood", "gmm.e_step", "copy.deepcopy of a machine (sklearn BaseEstimator state protocol)"]
-STUBS = ["h5py.File: in-memory model with h5py-3 semantics (symexec/h5model.py)", "pickle is represented by copy.deepcopy (both use the object's __reduce_ex__/__getstate__)"]
+STUBS = ["h5py.File: in-memory model with h5py-3 semantics (symexec/h5model.py)", "pickle: copy.deepcopy symbolically (both use the object's __reduce_ex__/__getstate__), a real pickle round trip on the real backend (translator validation / replay)"]
 ASSUMPTIONS = ["assigned weights > 0, assigned floors > 0, assigned variances > 0", "histories are bounded: all operation sequences of length <= L from a freshly built machine, with every argument symbolic",
                "reads (scoring) are operations too, so cached normalisers exist in the pre-state"]
 EXHAUSTIVE = ["all sequences of length <= L over the operation alphabet (setters with scalar/vector/matrix floors, read, ML steps, deep copy, HDF5 round trip, load into another object)", "ML and MAP machines"]
 OUTSIDE = ["in-place mutation of arrays returned by the getters", "sequences longer than L", "sizes beyond (C,D)=(2,1)/(2,2)"]
-OPS = ["w", "mu", "v", "thr-scalar", "thr-vector", "thr-matrix", "read", "ml-all", "ml-var", "ml-mean", "deepcopy", "h5-new", "h5-load"]
+OPS = ["w", "mu", "v", "thr-scalar", "thr-vector", "thr-matrix", "read", "ml-all", "ml-var", "ml-mean", "deepcopy", "pickle", "h5-new", "h5-load"]
 MAP_OPS = ["w", "mu", "v", "thr-vector", "read", "map-all", "map-var", "deepcopy", "h5-new", "init-gaussians"]
 L = {"quick": 2, "thorough": 3}
 
@@ -47,6 +47,13 @@ def apply_op(B, m, op, i, C, D, ubm=None):
         gmm.m_step([s], m)
     elif op == "deepcopy":
         m = copy.deepcopy(m)
+    elif op == "pickle":
+        if B.sym:
+            m = copy.deepcopy(m)  # same __reduce_ex__/__getstate__ protocol; symbolic scalars cannot be serialised
+        else:
+            import pickle
+
+            m = pickle.loads(pickle.dumps(m))
     elif op == "h5-new":
         path = B.h5path("m%d.h5" % i)
         m.save(path)
